@@ -56,7 +56,6 @@ theorem destroyCb_spec (s : Stack) (m : Mem) (hinv : s.Inv) (hlive : 3 ≤ m.liv
 on; stops with the failing status when a push is blocked -/
 theorem filterLoop_spec (p : Nat → Bool) (src : Arr) (hsrc : src.Inv) : ∀ n (it : ArrIter) (dst : Stack) (log : List Nat) (m : Mem),
     it.index ≤ src.size → src.size - it.index < n → dst.Inv → 0 < m.live →
-    (∀ c, dst.v.grow c ≤ Gen.CC_MAX_ELEMENTS) →
     (((filterLoop p src n it dst log m).1 = .ok ∧
         (filterLoop p src n it dst log m).2.1.abs = dst.abs ++ (src.abs.drop it.index).filter p ∧
         (filterLoop p src n it dst log m).2.2.1 = log ++ src.abs.drop it.index) ∨
@@ -67,7 +66,7 @@ theorem filterLoop_spec (p : Nat → Bool) (src : Arr) (hsrc : src.Inv) : ∀ n 
   induction n with
   | zero => intro it dst log m h1 h2; omega
   | succ n ih =>
-    intro it dst log m h1 h2 hd hl hg
+    intro it dst log m h1 h2 hd hl
     have hbl := hsrc.size_le_len
     simp only [filterLoop]
     by_cases hend : it.index ≥ src.size
@@ -90,11 +89,11 @@ theorem filterLoop_spec (p : Nat → Bool) (src : Arr) (hsrc : src.Inv) : ∀ n 
         rcases ad with ⟨ok, habs, hgf⟩ | ⟨hb, hsame⟩
         · have hok : ((dst.push (src.buf.get it.index) m).1 != .ok) = false := by simp [push, ok]
           simp only [hok, Bool.false_eq_true, if_false]
-          have hinv' : (dst.push (src.buf.get it.index) m).2.1.Inv := hgf.inv hd (hg _)
+          have hinv' : (dst.push (src.buf.get it.index) m).2.1.Inv := hgf.inv hd
           have hgrow : (dst.push (src.buf.get it.index) m).2.1.v.grow = dst.v.grow := hgf.2.2.2.2
           have := ih { index := it.index + 1, lastRemoved := false } (dst.push (src.buf.get it.index) m).2.1
             (log ++ [src.buf.get it.index]) (dst.push (src.buf.get it.index) m).2.2 (by simp only; omega)
-            (by simp only; omega) hinv' (by simp only [push]; omega) (by rw [hgrow]; exact hg)
+            (by simp only; omega) hinv' (by simp only [push]; omega)
           obtain ⟨t1, t2, t3, t4, t5⟩ := this
           refine ⟨?_, t2, by rw [t3, hgrow], by rw [t4]; exact al, by rw [t5]; exact af⟩
           rcases t1 with ⟨u1, u2, u3⟩ | u
@@ -121,7 +120,7 @@ theorem filterLoop_spec (p : Nat → Bool) (src : Arr) (hsrc : src.Inv) : ∀ n 
       · have hpf : p (src.buf.get it.index) = false := by simpa using hp
         simp only [hpf, Bool.false_eq_true, if_false]
         have := ih { index := it.index + 1, lastRemoved := false } dst (log ++ [src.buf.get it.index]) m
-          (by simp only; omega) (by simp only; omega) hd hl hg
+          (by simp only; omega) (by simp only; omega) hd hl
         obtain ⟨t1, t2, t3, t4, t5⟩ := this
         refine ⟨?_, t2, t3, t4, t5⟩
         rcases t1 with ⟨u1, u2, u3⟩ | u
@@ -134,10 +133,9 @@ theorem filterLoop_spec (p : Nat → Bool) (src : Arr) (hsrc : src.Inv) : ∀ n 
 /-- `cc_stack_filter`: refuses the empty stack; otherwise builds a stack with the default
 configuration holding exactly the matching elements in the same (bottom-to-top) order, calling the
 predicate once per element; any refusal on the way (header, array, a growth step of the result)
-yields no object and a balanced ledger (Q3).  `hg`: the default growth function stays within the
-range where the C cast is defined. -/
+yields no object and a balanced ledger (Q3). -/
 theorem filter_spec (p : Nat → Bool) (s : Stack) (dgrow : Nat → Nat) (dexGe : Nat → Bool) (m : Mem)
-    (hinv : s.Inv) (hg : ∀ c, dgrow c ≤ Gen.CC_MAX_ELEMENTS) :
+    (hinv : s.Inv) :
     ((s.filter p dgrow dexGe m).1 = .errOutOfRange ∧ s.abs = [] ∧ (s.filter p dgrow dexGe m).2.1 = none ∧
       (s.filter p dgrow dexGe m).2.2.2 = m) ∨
     (((s.filter p dgrow dexGe m).1 = .errAlloc ∨ (s.filter p dgrow dexGe m).1 = .errMaxCapacity ∨
@@ -167,7 +165,7 @@ theorem filter_spec (p : Nat → Bool) (s : Stack) (dgrow : Nat → Nat) (dexGe 
       have hokb : ((Stack.new Gen.ARRAY_DEFAULT_CAPACITY dgrow dexGe m).1 != .ok) = false := by simp [n1]
       simp only [hokb, Bool.false_eq_true, if_false]
       have hl := filterLoop_spec p s.v hinv (s.v.size + 1) {} f [] (Stack.new Gen.ARRAY_DEFAULT_CAPACITY dgrow dexGe m).2.2
-        (Nat.zero_le _) (by simp only; omega) n4 (by omega) (by rw [n6]; exact hg)
+        (Nat.zero_le _) (by simp only; omega) n4 (by omega)
       obtain ⟨t1, t2, t3, t4, t5⟩ := hl
       rcases t1 with ⟨u1, u2, u3⟩ | u
       · right
